@@ -1,0 +1,57 @@
+//go:build verif
+// +build verif
+
+package backend
+
+import (
+	"sync/atomic"
+	"time"
+
+	"github.com/kubewharf/kubebrain/pkg/backend/tso"
+)
+
+// This file is compiled only with the build tag `verif`. It gives an external verification harness
+// (a) named yield points at which it may observe or delay a goroutine, and
+// (b) read access to a few unexported pieces of state. It changes no behaviour by itself.
+
+// verifCallback is installed once by the harness before any backend is built.
+var verifCallback atomic.Value // func(owner interface{}, name string, arg uint64)
+
+// VerifSetCallback installs the callback invoked at every verifPoint.
+func VerifSetCallback(f func(owner interface{}, name string, arg uint64)) {
+	verifCallback.Store(f)
+}
+
+func verifPoint(owner interface{}, name string, arg uint64) {
+	if f, ok := verifCallback.Load().(func(owner interface{}, name string, arg uint64)); ok && f != nil {
+		f(owner, name, arg)
+	}
+}
+
+// VerifOwners returns the values passed as `owner` by the yield points of backend b and of its watcher hub.
+func VerifOwners(b Backend) (backendOwner interface{}, hubOwner interface{}) {
+	impl := b.(*backend)
+	return impl, impl.watcherHub
+}
+
+// VerifSetRetryIntervals overrides the async retry intervals used by backends built afterwards.
+func VerifSetRetryIntervals(retry, check time.Duration) {
+	retryInterval = retry
+	checkInterval = check
+}
+
+// VerifSetEventsTTL overrides the ttl (in seconds) of event keys used by backends built afterwards.
+func VerifSetEventsTTL(seconds int64) {
+	eventsTTL = seconds
+}
+
+// VerifSequencerState returns the committed (readable) revision and the highest revision dealt.
+func VerifSequencerState(b Backend) (committed uint64, dealt uint64) {
+	impl := b.(*backend)
+	return impl.tso.GetRevision(), tso.VerifDealt(impl.tso)
+}
+
+// VerifRetryQueueLen returns the number of unresolved uncertain operations.
+func VerifRetryQueueLen(b Backend) int {
+	return b.(*backend).asyncFifoRetry.Size()
+}
